@@ -254,7 +254,8 @@ def gen_ops(r, case, base):
         if r.random() < 0.5:
             ops.append(["disable"])
         if r.random() < 0.3:
-            ops.append(["run", None, None, r.choice(DTS), r.choice([0, 1, 2]), 20000, "disable", None])
+            # (the dashboard cannot un-select: choice None only while nothing has been selected yet)
+            ops.append(["run", None, prev, r.choice(DTS), r.choice([0, 1, 2]), 20000, "disable", None])
         return ops
     for p in range(nper):
         dash, choice = gen_sel(r, names, chosen)
@@ -1278,17 +1279,29 @@ def oracle_lifecycle(obs, modes):
 # ---------------------------------------------------------------------------
 # the check
 
+def open_fingerprints():
+    """fingerprints listed as open findings of this property in known_findings.json"""
+    from .common import load_known
+    return set(k.get("fingerprint") for k in load_known() if k.get("property") == PID and k.get("status") == "open")
+
+
 def load_corpus():
-    """[(file name, case)]"""
+    """[(file name, case)]; a case on which the library is known to depart from the property (one of CANDIDATE_KINDS)
+    is run only once its fingerprint is an open finding -- then it is a witness like 01_ and 02_"""
     d = os.path.join(CORPUS, PID)
     out = []
+    registered = open_fingerprints()
     if os.path.isdir(d):
         for n in sorted(os.listdir(d)):
             if n.endswith(".json"):
                 try:
-                    out.append((n, json.load(open(os.path.join(d, n)))["case"]))
+                    case = json.load(open(os.path.join(d, n)))["case"]
                 except Exception:
-                    pass
+                    continue
+                fp = CANDIDATE_KINDS.get(case["pkg"]["kind"])
+                if fp is not None and fp not in registered:
+                    continue
+                out.append((n, case))
     return out
 
 
@@ -1349,6 +1362,8 @@ def shrink(case, fails):
                 del c["pkg"]["modules"][i]["classes"][j]
                 cands.append(c)
         for flag in ("hidden", "txt", "subpkg", "dotted", "namespace"):
+            if flag == "dotted" and (PKG_FAIL_KINDS.get(cur["pkg"]["kind"]) or pkg_absent(cur["pkg"]["kind"])):
+                continue
             if cur["pkg"].get(flag):
                 c = copy.deepcopy(cur)
                 c["pkg"][flag] = False
@@ -1398,12 +1413,20 @@ def run(ctx):
     unprint = [c["idx"] for c, o in pairs if not printable(o)]
     ctx.obligation("corr:observations are printable ASCII", not unprint, repr(unprint[:5]))
     pairs = [(c, o) for c, o in pairs if printable(o)]
+    wrong = [(c["idx"], c["pkg"]["kind"], o.get("imp")) for c, o in pairs if o.get("imp") != expected_import(c["pkg"])]
+    ctx.obligation("corr:import_module(<package>) does on every layout what the layout's kind says", not wrong, repr(wrong[:3]))
     problems = [(c["idx"], o["problem"]) for c, o in pairs if o.get("problem")]
     ctx.obligation("corr:no call of the lifecycle crashed or hung", not problems, repr(problems[:3]))
     for c, o in pairs:
         ctx.count("fms=%s" % c["fms"])
         ctx.count("pkg=%s" % c["pkg"]["kind"])
         ctx.count("err=%d" % o["err"])
+        ctx.count("import=%s" % import_class(c["pkg"], o["imp"]))
+        if timer_ready(o["mops"]) and not wf_ops(o["mops"]):
+            ctx.count("ops:period-begins-while-the-previous-one-was-not-disabled")
+            nchg = count_changed_open(o["mops"])
+            if nchg:
+                ctx.count("ops:...and-another-chooser-selection-is-in-force", nchg)
         ctx.count("modules=%d" % len(c["pkg"].get("modules", [])))
         ctx.count("modes=%s" % (len(o["modes"]) if len(o["modes"]) < 4 else ">=4"))
         for op in o["mops"]:
@@ -1433,12 +1456,18 @@ def run(ctx):
         "distinct_nontrivial": sum(1 for c, o in pairs if nontrivial(c, o)),
         "rule": "layouts: corpus, %d hand-written edge cases, then seeded random packages (0-4 modules, 0-4 classes "
                 "each, MODE_NAME/DISABLED/DEFAULT with truthy/falsy spellings, duplicates, failing imports of 5 kinds, "
-                "raising constructors, missing package / missing sub-package / failing __init__, namespace and dotted "
+                "raising constructors, missing package / missing sub-package, 12%% packages that exist but whose "
+                "import fails in one of %d ways (own or parent's __init__: exception, missing unrelated dependency, "
+                "missing sub-module, missing module of the parent package, ImportError without a name / naming another "
+                "module), namespace and dotted "
                 "packages, classes in __init__.py, hidden/.txt/sub-package decoys), half of them repaired to be "
                 "fault-free, FMS on/off, call sequences of start/periodic/disable, run() periods with 0-6 iterations "
                 "ended by disable/teleop/endCompetition, in a third of them disable() called on the selector during "
-                "one of the passes (by the iter_fn hook or by another thread) with the loop going on, 12%% ill-formed; non-trivial = built, >= 2 modes and >= 3 "
-                "callbacks delivered" % len(EDGE_CASES),
+                "one of the passes (by the iter_fn hook or by another thread) with the loop going on, 18%% TimedRobot "
+                "histories of 2-4 start()/periodic() periods mostly NOT followed by disable() with the chooser selection "
+                "changed in between (another mode or 'None'), 15%% of other start() periods not followed by disable(), "
+                "12%% otherwise ill-formed; non-trivial = built, >= 2 modes and >= 3 "
+                "callbacks delivered" % (len(EDGE_CASES), len(PKG_FAIL_KINDS)),
         "corpus_cases": ncorpus,
         "samples": [{"fms": c["fms"], "modules": [(m["stem"], m["fail"], [(x["cname"], x["mode"]) for x in m["classes"]])
                                                    for m in c["pkg"].get("modules", [])],
@@ -1450,7 +1479,7 @@ def run(ctx):
     # the witnesses of the open known findings are replayed on every run
     known = []
     for k, (n, c) in enumerate(corpus):
-        if n in WITNESSES and not obs[k].get("harness_error"):
+        if (n in WITNESSES or c["pkg"]["kind"] in CANDIDATE_KINDS) and not obs[k].get("harness_error"):
             kv = violation_of(c, obs[k], base, known=True)
             if kv:
                 kv["witness"] = "corpus/%s/%s" % (PID, n)
@@ -1465,14 +1494,43 @@ def run(ctx):
     return ctx.finish(oracle_violations=known + found)
 
 
+def import_class(pkg, imp):
+    if imp[0] != "importerror":
+        return {"ok": "ok", "other": "exception-other-than-ImportError"}.get(imp[0], imp[0])
+    name = pkg_import_name(pkg)
+    if imp[1] is None:
+        return "ImportError:name-is-None"
+    if imp[1] in (name, name.split(".")[0]):
+        return "ImportError:names-the-package-or-its-first-component"
+    if imp[1].split(".")[0] == name.split(".")[0]:
+        return "ImportError:names-another-module-under-the-same-top-level-name"
+    return "ImportError:names-an-unrelated-module"
+
+
+def count_changed_open(mops):
+    """periods that begin while the previous start() period was not disabled, with another chooser selection"""
+    n = 0
+    open_choice = None
+    is_open = False
+    for o in mops:
+        if o[0] in ("start", "run"):
+            if is_open and o[2] is not None and o[2] != open_choice:
+                n += 1
+            is_open = o[0] == "start"
+            open_choice = o[2] if o[2] is not None else open_choice
+        elif o[0] == "disable":
+            is_open = False
+    return n
+
+
 def violation_of(case, obs, base, known=False):
     """first violation of the property on this observation; the open known findings only when asked for"""
-    vs = [x for x in oracle(case, obs, base) if (x[0] in KNOWN_FPS) == known]
+    vs = [x for x in oracle(case, obs, base) if (x[0] in KNOWN_FPS or x[0] in CANDIDATE_KINDS.values()) == known]
     if not vs:
         return None
     fp, text = vs[0]
     return {"kind": "input", "what": "fms=%s: %s" % (case["fms"], text), "fingerprint": fp, "case": case,
-            "observed": {k: obs[k] for k in ("err", "exc", "ctors", "modes", "options", "default", "events", "mops", "attrerr", "problem")}}
+            "observed": {k: obs.get(k) for k in ("imp", "err", "exc", "ctors", "modes", "options", "default", "events", "mops", "attrerr", "problem")}}
 
 
 def search_violation(ctx, base, bad, cases, obs):
@@ -1549,6 +1607,7 @@ def replay(ctx, obj):
     print("fms=%s layout=%s" % (case["fms"], json.dumps(case["pkg"])[:600]))
     print("calls=%s" % (case["ops"],))
     print("ops=%s   (run: [clock us, autonomous+enabled, disable() called during this pass] per loop pass)" % (o["mops"],))
+    print("package=%s kind=%s: import_module() raises %s" % (pkg_import_name(case["pkg"]), case["pkg"]["kind"], import_text(o.get("imp"))))
     print("exception=%s constructor calls=%s" % (o["exc"], [c[1] for c in o["ctors"]]))
     print("modes=%s options=%s default=%r" % ([(k, i[1]) for k, i in o["modes"]], o["options"], o["default"]))
     print("callbacks=%s" % ([(k, i[1], t) for k, i, t in o["events"]],))
